@@ -648,6 +648,8 @@ func (b *BinaryExpression) Type() *Type {
 func (b *BinaryExpression) infer() {
 	if b.T == EMPTY_ARRAY {
 		b.T = &Type{Name: ARRAY, Sub: ANY_TYPE, Fixed: true}
+	} else if b.T.Name == ARRAY {
+		b.T = b.T.infer() // e.g. [[]] + [[]]
 	}
 }
 
@@ -678,6 +680,10 @@ func (i *IndexExpression) Token() *lexer.Token {
 // array of numbers with type []num.
 func (i *IndexExpression) Type() *Type {
 	return i.T
+}
+
+func (i *IndexExpression) infer() {
+	i.T = i.T.infer() // e.g. [[]][0]
 }
 
 // SliceExpression is an AST node
@@ -718,6 +724,10 @@ func (s *SliceExpression) Type() *Type {
 	return s.T
 }
 
+func (s *SliceExpression) infer() {
+	s.T = s.T.infer() // e.g. [[]][:1]
+}
+
 // DotExpression is an AST node that represents a field access
 // expression. A field access expression is an expression that accesses
 // the value of a field in a map, such as person.age.
@@ -745,6 +755,10 @@ func (d *DotExpression) Token() *lexer.Token {
 // map's values. For map := {a: true}, the type of map.a is bool.
 func (d *DotExpression) Type() *Type {
 	return d.T
+}
+
+func (d *DotExpression) infer() {
+	d.T = d.T.infer() // e.g. {a:[]}.a
 }
 
 // GroupExpression is an AST node that represents a parenthesized
@@ -775,8 +789,8 @@ func (d *GroupExpression) Type() *Type {
 }
 
 func (d *GroupExpression) infer() {
-	if d.Type() == EMPTY_ARRAY {
-		d.Expr.(inferrer).infer()
+	if inf, ok := d.Expr.(inferrer); ok {
+		inf.infer()
 	}
 }
 
